@@ -111,6 +111,15 @@ func (w *World) read(ctx context.Context, field string) error {
 			case <-time.After(600 * time.Millisecond):
 				return errors.New("blocked resolver gave up in " + field)
 			}
+		case "hold":
+			// an in-flight computation that ignores cancellation: it is held until its context is cancelled
+			// (or 600 ms), then carries on and returns its value
+			w.rec.add(Event{Kind: "blocked", Field: field})
+			select {
+			case <-ctx.Done():
+			case <-time.After(600 * time.Millisecond):
+			}
+			return nil
 		case "safe":
 			return graphql.NewSafeError("safe failure in %s", field)
 		case "panic":
